@@ -31,6 +31,7 @@
 #include <dirent.h>
 #include <dlfcn.h>
 #include <errno.h>
+#include <sys/resource.h>
 #include <fcntl.h>
 #include <limits.h>
 #include <pthread.h>
@@ -238,6 +239,15 @@ static void vsim_init(void) {
     g_rootlen = strlen(g_root);
     while (g_rootlen > 1 && g_root[g_rootlen - 1] == '/') g_root[--g_rootlen] = 0;
     g_world = 1;
+  }
+  /* `VSIM_NOFILE=n`: the process may have n descriptors open at a time (a small `ulimit -n`):
+   * a tool that closes what it opens never notices; one that leaks a descriptor per input does
+   * after a few dozen inputs */
+  const char *nf = getenv("VSIM_NOFILE");
+  if (nf && atoi(nf) > 8) {
+    struct rlimit rl;
+    rl.rlim_cur = rl.rlim_max = (rlim_t)atoi(nf);
+    setrlimit(RLIMIT_NOFILE, &rl);
   }
   const char *rd = getenv("VSIM_READDIR");
   if (rd) {
